@@ -1196,6 +1196,11 @@ func (g *vdb) binary(a, b *vnode, kind string) *vnode {
 				n.cols = append(n.cols, vmergeTyp(c, c2))
 			}
 		}
+		if len(n.cols) == 0 {
+			// an intersect of sources without a common column has no columns at all; not generated
+			// (a Lookup into it panics with "Sels.Get can't find …", see findings/C22.md)
+			return nil
+		}
 	case "minus":
 		n.cols = append([]vcol{}, a.cols...)
 	}
